@@ -89,6 +89,10 @@ def sample(rows, tier, seed):
     out += _stratified(rng, kind("few"),
                        lambda r: (r["ty"], r["r"], r["c"], r["grid"]),
                        60 if quick else 400)
+    out += _stratified(rng, kind("rdacc") + kind("rdrej"),
+                       lambda r: (r["ty"], r["kind"], r["vec"], r["grid"],
+                                  r["r"], r["c"]),
+                       240 if quick else 2500)
     out += _stratified(rng, kind("det"),
                        lambda r: (r["ty"], r["grid"], r["st"] == 0),
                        64 if quick else 600)
@@ -154,7 +158,8 @@ def issues_from_validation(ctx, res, label):
             props = {"C18"}
             if field == "ref":
                 props = {"C01", "C20"}   # reference run: not a C18 matter
-            if field in ("rejection", "interpReject") and ev.get("wret") == -1:
+            if field in ("rejection", "interpReject", "lastDeclarationCounts") \
+                    and ev.get("wret") == -1:
                 props.add("C11")
         rp = ctx.save_replay("merror-%s.ndjson" % common.sig_hash(sig),
                              "".join(f["lines"]))
